@@ -37,6 +37,9 @@ type concShared struct {
 	stampN int64
 	marks  []markRec // (node label, send id) for every node invocation
 	sendN  int
+	// slots, when set, is ONE option slice with a nil placeholder that every client's RegisterNode calls
+	// are made from (slots... for DenyOverwrite, slots[:1]... otherwise): arguments stay the caller's
+	slots []el.Option
 }
 
 //go:norace
@@ -231,6 +234,12 @@ func execOp(ctx context.Context, b *el.Broker, o *cOp, sh *concShared) {
 		var opts []el.Option
 		if o.Policy == "deny" {
 			opts = append(opts, el.WithNodeRegistrationPolicy(el.DenyOverwrite))
+		}
+		if sh.slots != nil {
+			opts = sh.slots[:1] // the placeholder only
+			if o.Policy == "deny" {
+				opts = sh.slots
+			}
 		}
 		err := b.RegisterNode(el.NodeID(o.ID), o.obj, opts...)
 		setRet(o, sh, err == nil, false, 0)
@@ -520,7 +529,11 @@ func runConc(rc *RunCtx, prop string) {
 	// type "tz", which has a pipeline of plain nodes that is not part of the history
 	// in some runs every node's Close fails (a removal then reports the failure AND has removed the node;
 	// several nodes closed by one RemovePipelineAndNodes all report)
-	closeFails := (prop == "C04" || prop == "C05") && tp.Choose(3, "close-fails") == 0
+	closeFails := (prop == "C04" || prop == "C05" || prop == "C07") && tp.Choose(3, "close-fails") == 0
+	if prop == "C04" && tp.Choose(3, "shared-option-slice") == 0 {
+		sh.slots = []el.Option{nil, el.WithNodeRegistrationPolicy(el.DenyOverwrite)}
+		simrt.Probe("history.shared-option-slice")
+	}
 	nesting := tp.Choose(3, "nesting-nodes") == 0
 	if nesting {
 		broker.RegisterNode("tzf", &markNode{label: "tzf", kind: el.NodeTypeFormatter, sh: sh})
@@ -600,7 +613,7 @@ func runConc(rc *RunCtx, prop string) {
 		var w []int // regpipe rmpipe rmpan rmnode regnode setthr getthr setthrs getthrs isany reopen send badregpipe
 		switch prop {
 		case "C07":
-			w = []int{6, 1, 1, 0, 1, 1, 0, 1, 0, 0, 0, 8, 0} // threshold setters: they create the event type's graph, as a first registration does
+			w = []int{6, 1, 1, 2, 3, 1, 0, 1, 0, 0, 0, 8, 0} // threshold setters: they create the event type's graph, as a first registration does
 		case "C05":
 			w = []int{2, 1, 1, 2, 2, 0, 0, 0, 0, 1, 0, 8, 6}
 		default:
@@ -709,6 +722,9 @@ func runConc(rc *RunCtx, prop string) {
 		// done by the plain binary on the same seeds
 		rc.NonTrivial = true
 		return
+	}
+	if sh.slots != nil && (len(sh.slots) != 2 || sh.slots[0] != nil || sh.slots[1] == nil) {
+		rc.Failf(prop+".caller-arguments-rewritten", "option-slice", "the option slice the clients passed to RegisterNode ([nil placeholder, DenyOverwrite]) was rewritten by the Broker: slot 0 is nil: %v, slot 1 is nil: %v", sh.slots[0] == nil, sh.slots[1] == nil)
 	}
 
 	// ---- history check
